@@ -101,6 +101,38 @@ def destination_inside_right_operand(quick):
     return out
 
 
+BO_LEAVES = [("var", ">h"), ("var", ">H"), ("var", "<i"), ("var", ">I"), ("var", "!q"), ("var", ">Q"),
+             ("local", ">i"), ("local", "<Q"), ("local", ">h")]
+BO_DSTS = [("var", ">q"), ("var", "<Q"), ("var", "!q"), ("var", ">i"), ("var", ">H"), ("var", "<h"),
+           ("local", ">q"), ("local", "!I")]
+
+
+def byte_order_variables(quick):
+    """variables declared with a byte order (">h", "<Q", "!q"; array-map and local): as operands they are swapped
+    and sign-extended after loading, as destinations the value is computed in the destination's width and swapped
+    before the store.  (A seeded change computed a byte-ordered 8-byte destination in 32 bits; no check had a
+    byte-ordered variable outside packets.)"""
+    out = []
+    native = [("bin", "add", ("var", "h"), ("var", "b")), ("bin", "sub", ("var", "I"), ("var", "I")),
+              ("bin", "mul", ("var", "I"), ("var", "I")), ("neg", ("var", "h")), ("var", "i"), ("var", "Q"),
+              ("bin", "add", ("reg", "sr"), ("const", 2 ** 33)), ("bin", "lsh", ("var", "B"), ("const", 35))]
+    k = 0
+    for d in BO_DSTS:
+        for t in native:
+            k += 1
+            if not quick or (k + BO_DSTS.index(d)) % 2:
+                out.append((t, d))
+    dsts = [("var", "q"), ("var", "I"), ("reg", "sr"), ("hash", "q"), ("var", ">q"), ("local", "!I")]
+    for li, lf in enumerate(BO_LEAVES):
+        trees = [lf, ("bin", "add", lf, ("var", "h")), ("bin", "rsh", lf, ("const", 3)), ("neg", lf),
+                 ("bin", "sub", ("var", "B"), lf), ("bin", "mul", lf, BO_LEAVES[(li + 4) % len(BO_LEAVES)])]
+        for ti, t in enumerate(trees):
+            for di, d in enumerate(dsts):
+                if not quick or (li + ti + di) % 2 == 0:
+                    out.append((t, d))
+    return out
+
+
 def random_tree(rng, depth):
     if depth == 0 or rng.random() < 0.15:
         if rng.random() < 0.2:
@@ -131,7 +163,7 @@ def vectors(rng, st, tree, count):
     count += 1
     while len(out) < count:
         v = []
-        for (off, size, signed) in st["inputs"]:
+        for (off, size, signed, *_) in st["inputs"]:
             c = rng.random()
             if c < 0.5:
                 v.append(rng.choice(G.boundary(size, signed)))
@@ -153,7 +185,8 @@ def tree_has(tree, kinds):
 
 def run(ctx):
     fixed = random.Random(20260922)
-    stmts = depth1(ctx.quick) + register_plus_constant(ctx.quick) + destination_inside_right_operand(ctx.quick)
+    stmts = depth1(ctx.quick) + register_plus_constant(ctx.quick) + destination_inside_right_operand(ctx.quick) + \
+        byte_order_variables(ctx.quick)
     for _ in range(300 if ctx.quick else 2500):
         stmts.append((random_tree(fixed, 2 if ctx.quick or fixed.random() < 0.6 else 3), fixed.choice(DSTS)))
     for _ in range(60 if ctx.quick else 400):
@@ -212,7 +245,7 @@ def run(ctx):
             case = dict(tree=m["tree"], dst=m["dst"], values=m["values"], depth=m["depth"], verdict=kind,
                         status=st_, observed=observed, admissible=expected,
                         signed_div_neg=sdn, unary_on_narrow=uon, sw_negative=swn,
-                        dst_size=(4 if m['dst'][1] in ('w', 'sw') else 8) if m['dst'][0] == 'reg' else G.FMT_SIZE[m['dst'][1]],
+                        dst_size=(4 if m['dst'][1] in ('w', 'sw') else 8) if m['dst'][0] == 'reg' else G.fsize(m['dst'][1]),
                         has_div=tree_has(m["tree"], ("floordiv", "mod")),
                         has_unary=tree_has(m["tree"], ("neg", "abs")))
             ctx.case_failed(case, f"{m['tree']} -> {m['dst']} on {m['values']}: {kind} "
